@@ -374,9 +374,20 @@ def build(repo=None):
         pre = [new_frame(st, "ctx")] if meth == "__exit__" else []
         st.ghost.update(stack=list(pre), underflow=False, pushes=0, rolled_back=False)
         names = [a.arg for a in f.args.args]
-        st.env = {names[0]: Opaque("self")}
+        self_v = Opaque("self")
+        st.env = {names[0]: self_v}
         for nm in names[1:]:
             st.env[nm] = Opaque(nm)  # exc_type / exc_value / exc_tb: ANY value (None or an exception of any class)
+
+        def ctx_setattr(e, s, recv, attr, v, nd, _self=self_v):
+            # the context object is stateless: one jaxtyped("context") object may be entered re-entrantly / at several depths, so
+            # per-entry state kept ON the object is shared between its activations (frame clause: enter/exit write no attribute of self)
+            if recv is _self:
+                e.oblige(s, "C05:context-object-stays-stateless(enter/exit-write-no-attribute-of-self,-so-re-entering-the-same-object-is-safe)", z3.BoolVal(False))
+                return [(s, NORMAL)]
+            return None
+
+        eng.method_models["__setattr__"] = ctx_setattr
         outs = eng.run(f.body, st)
         paths += len(outs)
         for s1, o in outs:
